@@ -64,7 +64,7 @@ def analyse_save_rows(res: RuleResult, summ) -> None:
         opens = [e for e in fe if e["name"] == "builtins.open"]
         wr_opens = []
         for e in opens:
-            mode = e["argv"][1] if len(e["argv"]) > 1 else None
+            mode = e["argv"][1] if len(e["argv"]) > 1 else e.get("kwargv", {}).get("mode")
             m = mode.value if isinstance(mode, Const) else "r"
             if any(ch in str(m) for ch in "wax+"):
                 wr_opens.append(e)
@@ -72,7 +72,7 @@ def analyse_save_rows(res: RuleResult, summ) -> None:
         # opened with os.open does only if O_TRUNC or O_EXCL is among its flags
         not_empty = []
         for e in wr_opens:
-            mode = e["argv"][1] if len(e["argv"]) > 1 else None
+            mode = e["argv"][1] if len(e["argv"]) > 1 else e.get("kwargv", {}).get("mode")
             m = str(mode.value) if isinstance(mode, Const) else "?"
             if e.get("via") == "os.fdopen":
                 fl = e.get("flags")
@@ -173,8 +173,8 @@ def open_modes(analysis: Analysis, res: RuleResult) -> None:
     # _save_* helpers are only reached through save_sensors -> _perform_file_action(tmp, "save")
     info = analysis.p.func("persistence:Persistence.save_sensors")
     calls = [c for c in common.calls_in(info.node, "_perform_file_action")]
-    ok = len(calls) == 1 and len(calls[0].args) == 2 and isinstance(calls[0].args[1], ast.Constant) and calls[0].args[1].value == "save" and "tmp" in unparse(calls[0].args[0])
-    res.add("C12-R1", "persistence:Persistence.save_sensors / the save helper is handed the temp name", ok, common.where(analysis, info, info.node), unparse(calls[0]) if calls else "no call")
+    ok = len(calls) == 1 and len(calls[0].args) == 2 and isinstance(calls[0].args[1], ast.Constant) and calls[0].args[1].value == "save" and unparse(calls[0].args[0]) not in ("self.persistence_file", "self.persistence_bak")
+    res.add("C12-R1", "persistence:Persistence.save_sensors / the save helper is called once, not with the main or backup name (which name it gets is judged on the paths)", ok, common.where(analysis, info, info.node), unparse(calls[0]) if calls else "no call")
     for fn in analysis.p.funcs.values():
         if fn.module is mod:
             for c in common.calls_in(fn.node):
@@ -203,7 +203,7 @@ def load_worker(analysis: Analysis, spec) -> dict:
             if e.kind == "exit" and e.name == "persistence:Persistence._load_sensors" and loads:
                 rv = e.args[0] if e.args else None
                 loads[-1]["ok"] = isinstance(rv, Const) and rv.value is True
-        catches = [(i, e.name) for i, e in enumerate(s.events) if e.kind == "catch" and e.func == "persistence:Persistence.safe_load_sensors"]
+        catches = [(i, e.name) for i, e in enumerate(s.events) if e.kind == "catch" and e.func.startswith("persistence:Persistence.") and not any(e.func.endswith(f"._load_{x}") for x in persist.EXTS)]
         fe = persist.file_events(s)
         decodes = [e for e in fe if e["name"] in ("pickle.load", "json.load")]
         updates = [e for e in fe if e["name"] == "update"]
